@@ -42,7 +42,11 @@ impl RustDocument {
     }
 
     pub fn extend(&mut self, other: RustDocument) {
-        self.namespace_lookup.extend(other.namespace_lookup);
+        // prefixes are scoped to the file that declares them: a prefix this document has bound
+        // itself keeps its meaning when an imported file binds the same prefix to something else
+        for (prefix, namespace) in other.namespace_lookup {
+            self.namespace_lookup.entry(prefix).or_insert(namespace);
+        }
 
         extend_no_duplicates(&mut self.namespaces, other.namespaces);
         extend_no_duplicates(&mut self.target_namespaces, other.target_namespaces);
